@@ -1,10 +1,14 @@
 #!/bin/bash
-# seed-run.sh <seed id> <property> : apply the seeded change to /repo, run the property's quick check, undo
-# (reverse-apply, so that no other working-tree file of /repo is touched).
+# seed-run.sh <seed id> <property> : apply the seeded change to a scratch worktree of /repo's HEAD, run the property's quick
+# check against it with a scratch copy of /verif (so that /verif/evidence and /verif/replays keep the clean-tree results), undo.
 cd /verif
-git -C /repo apply --check /verif/seeded/$1/patch.diff || { echo "patch does not apply"; exit 3; }
-git -C /repo apply /verif/seeded/$1/patch.diff
-./check $2 quick > /tmp/seedrun.$1.log 2>&1; rc=$?
-git -C /repo apply -R /verif/seeded/$1/patch.diff || echo "WARNING: could not undo $1"
+wt=/tmp/seedrun_wt; vf=/tmp/seedrun_vf
+git -C /repo worktree remove --force $wt 2>/dev/null; git -C /repo worktree prune
+git -C /repo worktree add -q --detach $wt HEAD || exit 2
+trap 'git -C /repo worktree remove --force $wt >/dev/null 2>&1' EXIT
+git -C $wt apply --check /verif/seeded/$1/patch.diff || { echo "patch does not apply"; exit 3; }
+git -C $wt apply /verif/seeded/$1/patch.diff
+rsync -a --delete --exclude .git --exclude replays --exclude seeded --exclude bin /verif/ $vf/
+FVC_REPO=$wt FVC_VERIF=$vf bin/fvc check $2 quick > /tmp/seedrun.$1.log 2>&1; rc=$?
 echo "seed $1 property $2 exit=$rc"; grep -E "VIOLATION|KNOWN|ENGINE|UNDECIDED" /tmp/seedrun.$1.log | cut -c1-260
 exit $rc
